@@ -32,6 +32,7 @@ def _delay_atom(fn):
         def is_it(x):
             return is_param(x, fn, 1)
         def is_delay(x):
+            x = resolve_local(fn["body"], x)        # `const unsigned delay = m_params.get_widening_delay();`
             return is_call(x, name="get_widening_delay") and is_field(obj(x), "m_params")
         if is_it(l) and is_delay(r):
             return {"<=": 1, ">": -1}.get(op, 0)
@@ -42,7 +43,14 @@ def _delay_atom(fn):
 
 
 def _mentions_delay(c, fn):
-    return any(is_call(x, name="get_widening_delay") for x in walk(c))
+    if any(is_call(x, name="get_widening_delay") for x in walk(c)):
+        return True
+    for x in walk(c):
+        if x.get("k") == "ref" and x.get("rk") == "local":
+            r = resolve_local(fn["body"], x)
+            if r is not x and any(is_call(y, name="get_widening_delay") for y in walk(r)):
+                return True
+    return False
 
 
 def extrapolate_rule(ctx, rid_join, rid_widen):
